@@ -73,6 +73,10 @@ T = {
     text="Script side: all legal command sequences up to length 4 (5 thorough) over an 18-letter alphabet (assert, assert-soft with ids and weights, push/pop 0..2, reset-assertions, check-sat, minimize/maximize, minmax) plus sampled sequences up to length 40 are given to SmtLibScript; get_last_formula(return_optimizations=True) must equal the live assertions (identity) and goals of an executable reference model of the SMT-LIB assertion stack, get_strict_formula must raise on push/pop. Solver side: all legal sequences up to length 4 (5) over a 17-letter alphabet (add_assertion, named assertion, push/pop 0..2, reset, solve with none/literal/non-literal assumptions, is_sat/is_valid/is_unsat, observe) plus sampled long ones run on a concrete IncrementalTrackingSolver whose backend rejects illegal pops: assertions, backend frames and every verdict must equal the reference.",
     note="Trusted: the reference stack model in vf/checks/c16.py and the brute-force solver vf/brute.py (decorated like the native solvers). Only SMT-LIB-legal sequences are run.",
     technique="model-based testing: exhaustive enumeration of short command sequences + generated long sequences against a reference model"),
+ "C18": dict(level="exploration", design="4/C18",
+    text="Generated finite-domain systems (Bool, BV3, range-bounded Int; some unsatisfiable) x goals (linear Int terms with guarded ITE, signed/unsigned BV terms, MaxSMT with integer - linear search also rational - weights over arbitrary soft clauses, MinMax/MaxMin over 2-3 terms) x optimize / boxed / lexicographic / pareto x linear|binary x SUA|incremental mixin over a brute-force solver in both enumeration orders, at level 0 and inside user push levels. Every model of the system is enumerated: the returned model must satisfy the assertions, the cost must be the optimum (lexicographic optimum; exactly the Pareto front, no duplicates), None exactly for unsatisfiable systems, and assertions / backend depth must be restored (a following user pop removes the user's level only).",
+    note="Trusted: vf/brute.py as satisfiability oracle (exhaustive), vf/refsem.py for objective values. Bisection over rational weights is not generated (documented as possibly non-terminating). A routine exceeding 20 s is inconclusive.",
+    technique="property-based testing against an exhaustive-enumeration optimum oracle"),
 }
 
 checks, na = [], []
